@@ -613,7 +613,7 @@ fn main() {
     }
 
     // (c) structured random
-    let (nlin, nnorm, nwh) = if thorough { (6000, 2000, 700) } else { (1000, 320, 130) };
+    let (nlin, nnorm, nwh) = if thorough { (4000, 1200, 400) } else { (1000, 320, 130) };
     let maxn = if thorough { 64 } else { 36 };
     for i in 0..nlin {
         let mut r = rng.fork();
